@@ -62,6 +62,18 @@ type textCase struct {
 	Code   string `json:"code,omitempty"`
 	Start  int    `json:"start"`
 	Note   string `json:"note,omitempty"`
+	MaxLen uint64 `json:"max_length,omitempty"` // configured maximum warrior length (0: the default of cfgOf)
+}
+
+func (t *textCase) cfg() g.SimulatorConfig {
+	c := cfgOf(t.M, t.Legacy)
+	if t.MaxLen > 0 {
+		c.Length = g.Address(t.MaxLen)
+		if uint64(c.Distance)+t.MaxLen > t.M {
+			c.Distance = 0
+		}
+	}
+	return c
 }
 
 func (t *textCase) witness() string {
@@ -78,7 +90,7 @@ func (c *Ctx) load(prop string, t *textCase) (w g.WarriorData, err error, pan st
 		}
 	}()
 	c.Rep.Transitions++
-	w, err = g.ParseLoadFile(strings.NewReader(t.Text), cfgOf(t.M, t.Legacy))
+	w, err = g.ParseLoadFile(strings.NewReader(t.Text), t.cfg())
 	return
 }
 
@@ -91,7 +103,7 @@ func (c *Ctx) compile(prop string, t *textCase) (w g.WarriorData, err error, pan
 		}
 	}()
 	c.Rep.Transitions++
-	w, err = g.CompileWarrior(strings.NewReader(t.Text), cfgOf(t.M, t.Legacy))
+	w, err = g.CompileWarrior(strings.NewReader(t.Text), t.cfg())
 	return
 }
 
